@@ -479,24 +479,41 @@ class Contract:
     def case_of_call(self, cx, a):
         return self.cases()[0]
 
+    def modifies(self, a, case):
+        """heap frame: list of (Ref, [field names]) the function may modify"""
+        return []
+
     def apply(self, cx, a, node, case=None):
-        """call-site use: assert requires, make fresh result, assume ensures"""
+        """call-site use: assert requires, havoc the frame, make a fresh result, assume ensures"""
         case = case or self.case_of_call(cx, a)
         name = self.target.split("::")[-1]
         for lab, c in self.requires(a, case).items():
             cx.oblige(f"call-pre@{node.lineno}:{name}:{lab}", "call-pre", c, node.lineno)
+        pre = {k: dict(v) for k, v in cx.heap.items()}
+        for ref, fields in self.modifies(a, case):
+            for f in fields:
+                cx.heap[ref.oid][f] = cx.havoc_value(cx.heap[ref.oid][f], f"{f}#{ref.oid}")
         res = self.fresh_result(cx, a, case)
-        for lab, c in self.ensures(a, res, cx, case).items():
-            cx.assume(c)
+        saved = cx.pre_heap
+        cx.pre_heap = pre
+        try:
+            for lab, c in self.ensures(a, res, cx, case).items():
+                cx.assume(c)
+        finally:
+            cx.pre_heap = saved
         return res
 
 
 REGISTRY = {}
+REGISTRY_BY_NAME = {}
 
 
 def register(cls):
     inst = cls()
     REGISTRY[inst.target] = inst
+    qual = inst.target.split("::")[-1]
+    if "." not in qual:
+        REGISTRY_BY_NAME[qual] = inst  # module level function: callable by bare name
     return cls
 
 
@@ -516,11 +533,19 @@ def load_function(target):
         _SRC_CACHE[full] = (src, ast.parse(src))
     src, tree = _SRC_CACHE[full]
     node = tree
-    for part in qual.split("."):
+    parts = qual.split(".")
+    for part in parts:
         found = None
         for ch in ast.iter_child_nodes(node):
             if isinstance(ch, (ast.FunctionDef, ast.ClassDef, ast.AsyncFunctionDef)) and ch.name == part:
                 found = ch  # last definition wins, as in python
+        if found is None and len(parts) == 2 and part == parts[1]:
+            # the method may live in another class of the module (class placement is incidental): accept it
+            # if exactly one class of the file defines it
+            cands = [m for c in ast.iter_child_nodes(tree) if isinstance(c, ast.ClassDef)
+                     for m in ast.iter_child_nodes(c) if isinstance(m, ast.FunctionDef) and m.name == part]
+            if len(cands) == 1:
+                found = cands[0]
         if found is None:
             raise ContractMismatch(f"{target}: definition not found")
         node = found
@@ -598,6 +623,7 @@ class Ctx:
         self.unreachable = []
         self.events = []  # ghost trace usable by contracts
         self.notes = []
+        self.pre_heap = None  # heap snapshot that `old(...)` refers to while evaluating an ensures clause
 
     # ---- fresh symbols (deterministic names across re-executions)
     def _name(self, base):
@@ -633,6 +659,10 @@ class Ctx:
 
     def fields(self, ref):
         return self.heap[ref.oid]
+
+    def pre(self, ref):
+        """fields of ref in the pre-state of the contract currently being evaluated"""
+        return self.pre_heap[ref.oid]
 
     # ---- assumptions / obligations
     def assume(self, c):
@@ -1055,6 +1085,12 @@ class Ctx:
     # ---- calls
     def ev_Call(self, n):
         fname = ast.unparse(n.func)
+        if fname == "isinstance" and len(n.args) == 2:
+            # the class expression is not evaluated: contracts decide on its text
+            r = self.contract.call(self, "__isinstance__", [self.ev(n.args[0]), ast.unparse(n.args[1])], {}, n)
+            if r is NotImplemented:
+                raise Unsupported(f"isinstance(..., {ast.unparse(n.args[1])}) at line {n.lineno}")
+            return r
         # evaluate arguments
         args = []
         for a in n.args:
@@ -1517,6 +1553,12 @@ class Ctx:
         hook = getattr(self.contract, "havoc_heap", None)
         if hook is not None:
             hook(self)
+            return
+        gf = getattr(self.contract, "ghost_fields", ())
+        for oid, f in self.heap.items():
+            for name in gf:
+                if name in f:
+                    f[name] = self.havoc_value(f[name], f"{name}#{oid}")
 
     def concrete_iter(self, it):
         if isinstance(it, (list, range)) or (isinstance(it, tuple) and not (it and it[0] == "range"
@@ -1675,9 +1717,6 @@ class _Continue(Exception):
     pass
 
 
-REGISTRY_BY_NAME = {}
-
-
 def bind_args(fn, args, kwargs, cx=None, skip_self=False):
     """bind actual arguments to the parameter names of the real signature (defaults evaluated when constant)"""
     A = fn.args
@@ -1793,10 +1832,12 @@ def verify(contract, discharge_now=True):
     """generate and discharge all obligations for one contract over the current /repo source"""
     rep = FunctionReport(contract.target)
     t0 = time.time()
+    no_terminal = []
     try:
         fn, seg, h = load_function(contract.target)
         rep.src_hash = h
         col = Collector()
+        no_terminal = []
         for case in contract.cases():
             rep.cases.append(case.name)
             work = [()]
@@ -1813,6 +1854,7 @@ def verify(contract, discharge_now=True):
                     cx.env = dict(a.__dict__)
                     cx.old = NS(dict(a.__dict__))
                     cx.old_heap = {k: dict(v) for k, v in cx.heap.items()}
+                    cx.pre_heap = cx.old_heap
                     req = contract.requires(a, case)
                     for c in req.values():
                         cx.assume(c)
@@ -1845,8 +1887,7 @@ def verify(contract, discharge_now=True):
                     rep.unreachable.extend(cx.unreachable)
             rep.terminal_paths += terminal
             if terminal == 0 and rep.status == "ok":
-                rep.status = "vacuous"
-                rep.detail = f"no terminal path reached for case {case.name!r}"
+                no_terminal.append(case.name)
         rep.obligations = col.all()
         if rep.status == "ok" and len(rep.obligations) < contract.floor:
             rep.status = "vacuous"
@@ -1863,5 +1904,9 @@ def verify(contract, discharge_now=True):
     if discharge_now and rep.status == "ok":
         for ob in rep.obligations:
             discharge(ob)
+        if no_terminal and not rep.failed:
+            # no return / raise reached although nothing failed: the contract (or an invariant) is contradictory
+            rep.status = "vacuous"
+            rep.detail = f"no terminal path reached for case(s) {no_terminal[:3]}"
     rep.wall = time.time() - t0
     return rep
